@@ -117,6 +117,8 @@ type c01Scanner struct {
 
 var c01Scanners = map[string]*c01Scanner{}
 
+var c01PrevOut, c01PrevCopy [][]byte
+
 func c01Persistent(pkg string, d wkbDest, prefix bool) *c01Scanner {
 	key := pkg + "/" + d.name
 	if prefix {
@@ -341,6 +343,15 @@ func c01Event(c *ctx, g orb.Geometry, pkg string, le bool, srid int, psrid int, 
 		m, _ := encGeom(v, in.fn())
 		return map[string]interface{}{"ok": 1, "v": m, "srid": srid}
 	}
+	// what Value() and Marshal returned for the previous event is still what it was (results do not live in shared buffers)
+	e["vstable"] = 1
+	for i := range c01PrevOut {
+		if !bytes.Equal(c01PrevOut[i], c01PrevCopy[i]) {
+			e["vstable"] = 0
+		}
+	}
+	c01PrevOut = [][]byte{val, valp, data}
+	c01PrevCopy = [][]byte{append([]byte{}, val...), append([]byte{}, valp...), append([]byte{}, data...)}
 	e["bytes"] = bytesToInts(data)
 	e["decb"], e["decs"] = dec(decb, sridB, errB), dec(decs, sridS, errS)
 	if scans == nil {
